@@ -323,7 +323,7 @@ pub fn run(ctx: &Ctx) -> i32 {
     );
     let gates = ctx.gates_for("C03");
     let off = gates.off_list();
-    let cases = ctx.tier.pick(3_000, 60_000);
+    let cases = ctx.tier.pick(15_000, 300_000);
     let cli_budget = std::sync::atomic::AtomicI64::new(ctx.tier.pick(100, 3000));
     let out = run_tapes("C03", ctx.seed, ctx.threads, cases, 900, |tape, stats, counting| {
         let g = Gates::with_off(off.clone());
